@@ -465,4 +465,89 @@ def checkC19 (steps : List Step) : Option (Nat × String) := Id.run do
       return some (i, s!"C19: ledger after the frame shows live={r.live} bytes={r.bytes}, retained state accounts for live={expL} bytes={expB}")
   return none
 
+/-! ## paired traces (C09, recovery clause of C18) -/
+def markerIdx (steps : List Step) (name : String) : Option Nat :=
+  steps.findIdx? (fun st => st.op == ["note", name])
+
+def checkPaired (label : String) (marker : String) (steps : List Step) : Option (Nat × String) := Id.run do
+  match markerIdx steps marker with
+  | none => return none
+  | some m =>
+    let t := (blockTrace steps).filter (fun x => x.1 > m)
+    let a := traceOf t 0
+    let b := traceOf t 1
+    for ((i, ra), (_, rb)) in a.zip b do
+      if ra.frame == rb.frame && !holdsPair ra.fx rb.fx then
+        return some (i, s!"{label}: after the Reset the responder reacts with {ra.fx.length} port calls {describeRx steps i}, a freshly started one with {rb.fx.length}: {describeRx steps (i + 1)}")
+    return none
+
+def checkC09 := checkPaired "C09" "continuation"
+
+def hasAbort (st : Step) : Bool := st.out.any (fun l => l.startsWith "abort")
+
+def checkC01 (steps : List Step) : Option (Nat × String) := Id.run do
+  let mut idx := 0
+  for st in steps do
+    if hasAbort st then
+      return some (idx, s!"C01: the process died or a sanitizer aborted during `{String.intercalate " " (st.op.take 2)} ..`: {st.out.filter (fun l => l.startsWith "abort")}")
+    idx := idx + 1
+  return none
+
+def checkC18 (steps : List Step) : Option (Nat × String) := Id.run do
+  let mut idx := 0
+  let mut prevLive := 0
+  let mut prevBytes := 0
+  for st in steps do
+    if hasAbort st then
+      return some (idx, s!"C18: crash / sanitizer abort under an injected platform fault during `{String.intercalate " " (st.op.take 3)} ..`")
+    match st.op with
+    | "fsm" :: "new" :: _ | "tbl" :: "new" :: _ =>
+      if st.out.any (fun l => (l.startsWith "fsm " || l.startsWith "tbl ") && l.endsWith " null") && (st.live != prevLive || st.bytes != prevBytes) then
+        return some (idx, s!"C18: constructor reported failure but left {st.live - prevLive} allocation(s) behind")
+    | _ => pure ()
+    prevLive := st.live
+    prevBytes := st.bytes
+    idx := idx + 1
+  -- after the faults cleared and a Reset: only the per-interface records remain, and behaviour is that of a fresh responder
+  match markerIdx steps "recovered" with
+  | some m =>
+    match steps[m]? with
+    | some st =>
+      let ifaces := (ifaceIds ((blockTrace steps).filter (fun x => x.1 < m))).length
+      if st.live > ifaces || st.bytes != st.live * X.stateRecBytes then
+        return some (m, s!"C18: after the fault cleared and a Reset, {st.live} allocations / {st.bytes} bytes remain for {ifaces} interface(s)")
+    | none => pure ()
+  | none => pure ()
+  checkPaired "C18" "recovered" steps
+
+/-! ## C10 -/
+def checkC10 (steps : List Step) : Option (Nat × String) := Id.run do
+  let t := blockTrace steps
+  let mut idx := 0
+  for st in steps do
+    match st.op with
+    | "relay" :: a :: b :: _ =>
+      match parseDec a, parseDec b with
+      | some A, some B =>
+        -- the Emit that A executed in the previous op
+        match (t.filter (fun x => x.1 + 1 == idx && x.2.1 == A)).head? with
+        | some (_, _, ra) =>
+          if isEmit ra.frame then
+            let cap := (ra.cfg.mtu - 34) / 14
+            let descs := (emitDescs ra.frame).take cap
+            let bMac := match (traceOf t B).head? with | some (_, r) => r.cfg.mac | none => zeroMac
+            let later := (t.filter (fun x => x.1 > idx && x.2.1 == B)).map (·.2.2)
+            let untilReset := later.takeWhile (fun r => !isReset0 r.frame)
+            let reported := untilReset.flatMap (fun r => reportedOf r.fx)
+            let queried := untilReset.any (fun r => isQuery r.frame)
+            let lastMore := match ((untilReset.flatMap (fun r => sends r.fx)).filterMap decodeQueryResp).getLast? with
+              | some q => q.more | none => true
+            if queried && !lastMore && !holdsC10 ra.cfg.mac bMac descs reported then
+              return some (idx, s!"C10: interface {B} never reported the probes interface {A} emitted towards it: reported {reported.length} observations")
+        | none => pure ()
+      | _, _ => pure ()
+    | _ => pure ()
+    idx := idx + 1
+  return none
+
 end Driver.Check
